@@ -46,8 +46,12 @@ func (c *monC06) checkChanged(m *Machine, s *Step, pid, newPW, how string) *Viol
 	if bcryptCanon(old) != bcryptCanon(newPW) && bcryptOK(post.Password, old) {
 		return violation("C06", "old-password-still-verifies:"+how, "after %s of %q the stored hash still verifies the old password", how, pid)
 	}
-	if !strings.HasPrefix(post.Password, "$2") || strings.Contains(post.Password, newPW) {
-		return violation("C06", "stored-password-not-a-hash:"+how, "after %s of %q the stored value %q is not a bcrypt hash / contains the plaintext", how, pid, post.Password)
+	wantPrefix := "$2"
+	if customHasherOn {
+		wantPrefix = "$ssha256$"
+	}
+	if !strings.HasPrefix(post.Password, wantPrefix) || strings.Contains(post.Password, newPW) {
+		return violation("C06", "stored-password-not-a-hash:"+how, "after %s of %q the stored value %q is not a hash of the configured hasher / contains the plaintext", how, pid, post.Password)
 	}
 	key := pid + "|" + bcryptCanon(newPW)
 	for _, h := range append(c.hashes[key], pre.Password) {
@@ -109,7 +113,7 @@ func (c *monC06) After(m *Machine, s *Step) *Violation {
 		if ka == nil {
 			return nil
 		}
-		if len(op.S) > 72 {
+		if len(op.S) > 72 && !customHasherOn {
 			if !snapEqual(s.Pre, s.Post) {
 				return violation("C06", "oversized-password-changed-something:update", "UpdatePassword with a %d-byte password (bcrypt refuses it) changed storage: %v", len(op.S), snapDiff(s.Pre, s.Post))
 			}
@@ -136,7 +140,7 @@ func (c *monC06) After(m *Machine, s *Step) *Violation {
 				}
 				return nil
 			}
-			authorised = a && defaultPasswordPolicy.valid(op.S) && len(op.S) <= 72
+			authorised = a && defaultPasswordPolicy.valid(op.S) && (len(op.S) <= 72 || customHasherOn)
 		}
 		if !authorised {
 			if !usersEqual(s.Pre, s.Post) {
@@ -204,7 +208,8 @@ var profC06 = profile{
 			// with the lock module: some owners recover a locked account (its veto takes over the login-after-recovery)
 			a.Locked = c.Has("lock") && chance(t, "locked6", 30)
 		}
-		c.LockAfter, c.LockDurS = 100000, 43200 // only seeded and manual locks
+		c.LockAfter, c.LockDurS = 100000, 43200        // only seeded and manual locks
+		c.CustomHasher = chance(t, "customhasher", 25) // the documented pluggable Core.Hasher
 		if c.Has("remember") && c.Middleware != "remember" && chance(t, "apionly", 30) {
 			// an instance without a cookie store (API-only, admin back end) on a database where the
 			// front end issued remember tokens: a password change here must revoke them all the same
